@@ -16,7 +16,7 @@ UNITS = [
     Unit('transpose_view_at.bounded', 'c10', 'verif_transpose_at', mode='bp', plain=True, unwind=8, unwind_loops={'.': 8}, timeout=1500, object_bits=12,
          bounded='rank <= 3, extents 1..6, element count <= 6 (all loops unwound)',
          clause='(view-specific side) the lazy transpose view yields at every index the element NumPy yields, through the real decorator/indexing/ndarray glue'),
-    Unit('evaluator_loop.abstract', 'c10', 'nmtools::array::evaluator_t::operator()[rndarray_t]', mode='bp', harness=HARNESS, unwind=12, timeout=1500, object_bits=12,
+    Unit('evaluator_loop.abstract', 'c10', 'nmtools::array::evaluator_t::operator()[wndarray_t]', mode='bp', harness=HARNESS, unwind=12, timeout=1500, object_bits=12,
          replace=['nmtools::shape[rdecorator_t]', 'nmtools::utils::isequal[rstatic_vector_ul_4_rstatic_vector_ul_4]', 'nmtools::index::ndindex[rstatic_vector_ul_4]',
                   'nmtools::index::ndindex_t::size', 'nmtools::index::ndindex_t::operator[]',
                   'nmtools::apply_at[nmtools_apply_at__rdecorator_t]', 'nmtools::array::base_ndarray_t::offset'],
